@@ -67,11 +67,6 @@ class Prop(PropBase):
         'id()) is outside the model (verdict 2, counted)',
     ]
 
-    def coq_imports_short(self):
-        # local workaround: core.eval_in_coq's regex loses "(idx, code)" pairs that Coq's printer
-        # wraps right after the open paren; a wide printing margin keeps each pair on one line.
-        return ['Model.PyScope.\nSet Printing Width 1000000']
-
     # ------------------------------------------------------------------ cases
     def generate(self, rng, n, tier):
         cases = list(G.seeds())
@@ -126,6 +121,11 @@ class Prop(PropBase):
                 top |= a
                 in_comp |= b
             imported = {G.import_binding(s)[0] for s in case.get('imports', [])}
+            case_keys = {k for k, _ in case['ctx']}
+            for k in kb:
+                if k not in case_keys:
+                    out.append(fail('imports-beside-context', f'the pyimport step put {k!r} into context',
+                                    'import-in-context'))
             for k in added + rebound:
                 verb = 'added' if k in added else 'rebound'
                 if k in top:
@@ -146,7 +146,8 @@ class Prop(PropBase):
             for i, (mine, want) in enumerate(zip(obs['plain_results'], obs['plain_eval'])):
                 a, b = L.module_level_walrus(case['exprs'][i])
                 seen_comp = seen_comp or bool(b)
-                if mine != want:
+                calls_id = any(x[0] == 'call' and x[1] == ['name', 'id'] for x in L.walk(case['exprs'][i]))
+                if mine != want and not calls_id:      # id() of two copies of an object differs by nature
                     if seen_comp:
                         fp = 'comp-walrus-not-a-plain-variable'
                     elif seen_top:
@@ -186,11 +187,51 @@ class Prop(PropBase):
                     if k not in ka:
                         out.append(fail('save-persists', f'save() target {k!r} missing from context after {src!r}',
                                         'save-not-persisted'))
+            if ok:
+                out += self.mon_saved_values(case, obs)
         if '__builtins__' in ka and '__builtins__' not in kb and not any(f['fingerprint'] == 'builtins-in-context' for f in out) \
                 and '__builtins__' not in (set(L.save_targets(case['block'])) if case['kind'] == 'exec' else set()):
             out.append(fail('no-leak', '__builtins__ appeared in context', 'builtins-in-context'))
         # in-place mutation of a context list through its name stays visible
         out += self.mon_inplace(case, obs, rebound)
+        return out
+
+    def mon_saved_values(self, case, obs):
+        """save('x') after a plain `x = <literal>` (x bound nowhere else) must put that literal in context;
+        so must save(k=<literal>)."""
+        block = case['block']
+        lit = ('int', 'str', 'bool', 'none')
+        binders = {}
+        for s in block:
+            names = []
+            if s[0] in ('assign', 'aug', 'import', 'def', 'class', 'del'):
+                names.append(s[1])
+            if s[0] == 'from':
+                names.append(s[3])
+            for e in L.stmt_exprs(s):
+                names += [x[1] for x in L.walk(e) if x[0] == 'walrus']
+            for n in names:
+                binders[n] = binders.get(n, 0) + 1
+        final = {}
+        for i, s in enumerate(block):
+            if s[0] != 'save':
+                continue
+            for n in s[1]:
+                final[n] = None
+                prev = [t for t in block[:i] if t[0] == 'assign' and t[1] == n]
+                if binders.get(n, 0) == 1 and len(prev) == 1 and prev[0][2][0] in lit and n not in ('save', 'py'):
+                    e = prev[0][2]
+                    final[n] = ('lit', None if e[0] == 'none' else e[1])
+            for k, e in s[2]:
+                final[k] = ('lit', None if e[0] == 'none' else e[1]) if e[0] in lit else None
+        out = []
+        cmap = {k: v for k, v in obs['ctx']}
+        for k, want in final.items():
+            if want is not None and k in cmap:
+                got = cmap[k]
+                if type(got) is not type(want[1]) or got != want[1]:
+                    out.append(fail('save-persists', f'save() of {k!r} should have stored {want[1]!r}, context has {got!r}',
+                                    'saved-value-wrong'))
         return out
 
     def mon_inplace(self, case, obs, rebound):
